@@ -58,9 +58,13 @@ func (r *Ranker) Rank(id string) uint64 {
 	return 999999999
 }
 
+// ElemTerm prints (hash hi, hash lo, id, head) — primitive integers (the case term ends with %uint63)
 func (r *Ranker) ElemTerm(e El) string {
-	return vlib.App("mkElem", vlib.N(e.Hash), vlib.N(r.Rank(e.ID())), vlib.N(uint64(e.Head)))
+	return fmt.Sprintf("(%d, %d, %d, %d)", e.Hash>>32, e.Hash&0xffffffff, r.Rank(e.ID()), e.Head)
 }
+
+// HiLo prints a 64-bit value as two 32-bit halves
+func HiLo(v uint64) string { return fmt.Sprintf("%d, %d", v>>32, v&0xffffffff) }
 func (r *Ranker) ElemsTerm(es []El) string {
 	s := make([]string, len(es))
 	for i, e := range es {
